@@ -28,7 +28,7 @@ def configs(tier, base):
     # (n, threads, draws, steps): fault positions are enumerated, not sampled
     cs = []
     if tier == "quick":
-        cs = [(4, 3, 1, "1;"), (3, 2, 2, "0,2;"), (5, 4, 1, ";"), (2, 2, 1, "0,1;;"), (1, 2, 1, "0;"), (0, 2, 1, ";"), (6, 3, 1, "5;")]
+        cs = [(4, 3, 1, "1;"), (3, 2, 2, "0,2;"), (5, 4, 1, ";"), (2, 2, 1, "0,1;;"), (1, 2, 1, "0;"), (0, 2, 1, ";"), (6, 3, 1, "5;"), (7, 4, 1, ";")]
         per = 6
     else:
         for n in range(0, 9):
@@ -36,6 +36,7 @@ def configs(tier, base):
             for i, plan in enumerate(plans):
                 threads = 1 + (n + i) % 4
                 cs.append((n, threads, 1 + (i % 2), plan))
+        cs += [(66, 3, 1, ";"), (65, 4, 1, "64;"), (33, 2, 1, ";")]
         per = 8
     return cs, per
 
